@@ -189,6 +189,11 @@ impl Stake {
     fn setup(&self, h: &mut Hist) -> Option<World> {
         let pl = pool();
         let mut c = Chain::new(h.rng.range(10, 5000), h.rng.range(1_600_000_000, 1_800_000_000));
+        let (fb, fs) = h.rng.far_future();
+        c.advance(fb, fs);
+        if fb + fs > 0 {
+            h.out.count("worlds_far_in_the_future");
+        }
         let jitter = h.rng.below(1_000_000_000);
         let t0 = c.time_ns();
         c.set_time_ns(t0 + jitter, 0);
